@@ -47,3 +47,7 @@ rec('DtcDic', spn=INT, fmi=INT, oc=INT)
 rec('Dm1Cookie', cb=TFunc(TTuple(TRef('LampStatus'), TList(TRef('DtcDic')))))
 cls('Dm22', _pgn=INT, _ca=TRef('ControllerApplication'))
 cls('Dm11', _pgn=INT, _ca=TRef('ControllerApplication'), _subscribers_req_clear=TList(FUNC), _subscribers_ack_clear=TList(FUNC))
+
+# external objects of the ECU
+ext('ThreadEvent', is_set=BOOL)
+cls('ElectronicControlUnit', _job_thread_end=TRef('ThreadEvent'))
